@@ -558,7 +558,12 @@ func ServerWithOptions(conn net.PacketConn, rAddr net.Addr, opts ...ServerOption
 
 // Read reads data from the connection.
 func (c *Conn) Read(buff []byte) (n int, err error) { //nolint:cyclop
-	if err := c.Handshake(); err != nil {
+	// The implicit handshake is part of the call: the read deadline bounds it.
+	if err := c.HandshakeContext(c.readDeadline); err != nil {
+		if errors.Is(err, context.DeadlineExceeded) {
+			return 0, dtlserrors.ErrDeadlineExceeded
+		}
+
 		return 0, err
 	}
 
@@ -605,7 +610,12 @@ func (c *Conn) Write(payload []byte) (int, error) {
 	default:
 	}
 
-	if err := c.Handshake(); err != nil {
+	// The implicit handshake is part of the call: the write deadline bounds it.
+	if err := c.HandshakeContext(c.writeDeadline); err != nil {
+		if errors.Is(err, context.DeadlineExceeded) {
+			return 0, dtlserrors.ErrDeadlineExceeded
+		}
+
 		return 0, err
 	}
 
